@@ -1,5 +1,7 @@
 import Xp.Model.C11
+import Xp.Model.C11Hook
 import Xp.Proofs.C11
+import Xp.Proofs.C11Hook
 /-
 C11 property theorems: the CRDs derived from an XRD are the author's schema plus
 intact Crossplane machinery; colliding claim names are rejected; group and
@@ -432,6 +434,107 @@ theorem admitted_only_if_server_accepts (xrd : Xrd) (server : Crd → Bool) (h :
             · simp [hs2] at h
           · simp [hs] at h
 
+/-! ## the webhook as a long-lived client of the API server: interference, cache lag, API errors
+
+`hookCreate` / `hookUpdate` (Model/C11Hook) are ValidateCreate / ValidateUpdate call by call: reads
+through the informer cache, dry-run writes to the API server, retry.RetryOnConflict around
+"Get, then Update, or Create if NotFound". The theorems quantify over EVERY environment `env`
+(what third parties, the informer and the network do right before each call: create / delete /
+modify either CRD, let the cache lag or miss, make the call fail with an error of any class),
+every fault plan, every initial world and every server verdict `accept`. The interference-free
+`admissionCreate` / `admissionUpdate` above are the quiet special case (`hook_quiet_*`). -/
+
+/-- retry.DefaultRetry of the current tree makes five attempts (obligation on the regenerated constant;
+with zero steps the closure would never run and every update would be admitted unvalidated) -/
+theorem retry_steps : xrdWebhookRetrySteps = 5 := by decide
+
+/-- ValidateUpdate admits a request only if ValidateUpdate(old) found nothing, both CRDs could be
+derived (so the claim names do not collide) and the API server ACCEPTED every derived CRD -
+whatever happens concurrently, whatever the cache serves, whichever calls fail however. -/
+theorem webhook_update_sound (new old : Xrd) (accept : Crd → Bool) (env : Env World) (plan : Plan) (k : Nat) (w : World)
+    (h : (runE (hookSem accept) env plan k (hookUpdate new old) w).2 = some .allowed) :
+    validateUpdate new old = [] ∧ ∃ crds, allCrds new = .ok crds ∧ ∀ p ∈ crds, accept p.2 = true := by
+  have hwp := wp_hook accept (validateUpdate new old) new (dryRunAllUpdate xrdWebhookRetrySteps)
+    (fun crds s => wp_dryRunAllUpdate accept _ (by decide) crds s) w
+  exact (wpE_sound (hookSem accept) anyEnv harmlessG env (fun _ _ => trivial) plan k _ _ w hwp).2 _ h rfl
+
+/-- the same for ValidateCreate -/
+theorem webhook_create_sound (xrd : Xrd) (accept : Crd → Bool) (env : Env World) (plan : Plan) (k : Nat) (w : World)
+    (h : (runE (hookSem accept) env plan k (hookCreate xrd) w).2 = some .allowed) :
+    validate xrd = [] ∧ ∃ crds, allCrds xrd = .ok crds ∧ ∀ p ∈ crds, accept p.2 = true := by
+  have hwp := wp_hook accept (validate xrd) xrd dryRunAllCreate (fun crds s => wp_dryRunAllCreate accept crds s) w
+  exact (wpE_sound (hookSem accept) anyEnv harmlessG env (fun _ _ => trivial) plan k _ _ w hwp).2 _ h rfl
+
+/-- a validating webhook never persists anything: every call it gets applied is a read or a dry run -/
+theorem webhook_never_persists (new old : Xrd) (accept : Crd → Bool) (env : Env World) (plan : Plan) (k : Nat) (w : World) :
+    (∀ x ∈ ownE (hookSem accept) env plan k (hookUpdate new old) w, x.2.harmless = true) ∧
+    (∀ x ∈ ownE (hookSem accept) env plan k (hookCreate new) w, x.2.harmless = true) := by
+  constructor
+  · have hwp := wp_hook accept (validateUpdate new old) new (dryRunAllUpdate xrdWebhookRetrySteps)
+      (fun crds s => wp_dryRunAllUpdate accept _ (by decide) crds s) w
+    exact (wpE_sound (hookSem accept) anyEnv harmlessG env (fun _ _ => trivial) plan k _ _ w hwp).1
+  · have hwp := wp_hook accept (validate new) new dryRunAllCreate (fun crds s => wp_dryRunAllCreate accept crds s) w
+    exact (wpE_sound (hookSem accept) anyEnv harmlessG env (fun _ _ => trivial) plan k _ _ w hwp).1
+
+/-- colliding claim names are never admitted, by create or by update, under any interleaving -/
+theorem claim_collision_never_admitted (xrd old : Xrd) (c : Names) (hc : xrd.claimNames = some c)
+    (hcol : claimNamesCollide c xrd.names) (accept : Crd → Bool) (env : Env World) (plan : Plan) (k : Nat) (w : World) :
+    (runE (hookSem accept) env plan k (hookCreate xrd) w).2 ≠ some .allowed ∧
+    (runE (hookSem accept) env plan k (hookUpdate xrd old) w).2 ≠ some .allowed := by
+  have hno : ∀ crds, allCrds xrd ≠ .ok crds := by
+    intro crds
+    obtain ⟨n, hn⟩ := claim_names_rejected xrd c hc hcol
+    simp only [derive] at hn
+    simp only [allCrds, hc, hn]
+    cases forXR xrd <;> simp
+  constructor
+  · intro h
+    obtain ⟨_, crds, hcr, _⟩ := webhook_create_sound xrd accept env plan k w h
+    exact hno crds hcr
+  · intro h
+    obtain ⟨_, crds, hcr, _⟩ := webhook_update_sound xrd old accept env plan k w h
+    exact hno crds hcr
+
+/-- an update that changes an immutable name is refused before any API call is made: the world is
+not even looked at -/
+theorem immutable_webhook_no_call (new old : Xrd) (accept : Crd → Bool) (env : Env World) (plan : Plan) (k : Nat) (w : World)
+    (h : validateUpdate new old ≠ []) :
+    runE (hookSem accept) env plan k (hookUpdate new old) w = (w, some (.invalid (validateUpdate new old))) := by
+  simp [hookUpdate, hook, h, runE]
+
+/-- the quiet special case: cache up to date, nobody else writing, no failing call. The call-level
+webhook then decides exactly like `admissionUpdate` with the server's verdict as its `server`,
+and leaves the world as it was. -/
+theorem hook_quiet_update (new old : Xrd) (accept : Crd → Bool) (w : World) (hq : w.quiet) :
+    ∃ v, run (hookSem accept) Plan.allOk 0 (hookUpdate new old) w = (w, some v) ∧
+         v.abs = admissionUpdate new old accept := by
+  rw [run_allOk]
+  simp only [hookUpdate, hook, admissionUpdate, admission]
+  have h5 : xrdWebhookRetrySteps = 4 + 1 := by decide
+  rw [h5]
+  split
+  · exact ⟨_, rfl, rfl⟩
+  · cases allCrds new with
+    | error e => obtain ⟨a, b⟩ := e; exact ⟨_, rfl, rfl⟩
+    | ok crds =>
+      obtain ⟨h1, h2⟩ := dryRun_abs accept 4 crds w hq
+      exact ⟨_, by simp only []; rw [h1], h2⟩
+
+/-- ... and `hookCreate` like `admissionCreate`, when none of the CRDs exists yet -/
+theorem hook_quiet_create (xrd : Xrd) (accept : Crd → Bool) (w : World) (hq : w.quiet)
+    (hnew : ∀ crds, allCrds xrd = .ok crds → ∀ p ∈ crds, lookup p.2.name w.live = none) :
+    ∃ v, run (hookSem accept) Plan.allOk 0 (hookCreate xrd) w = (w, some v) ∧
+         v.abs = admissionCreate xrd accept := by
+  rw [run_allOk]
+  simp only [hookCreate, hook, admissionCreate, admission]
+  split
+  · exact ⟨_, rfl, rfl⟩
+  · cases hc : allCrds xrd with
+    | error e => obtain ⟨a, b⟩ := e; exact ⟨_, rfl, rfl⟩
+    | ok crds =>
+      obtain ⟨h1, h2⟩ := dryRunCreate_abs accept crds w hq (hnew crds hc)
+      exact ⟨_, by simp only []; rw [h1], h2⟩
+
 /-! ## the hypotheses are satisfiable (non-vacuity) -/
 
 /-! `exXrd` (Model/C11): two versions; the first one's schema declares `spec.claimRef` and
@@ -457,5 +560,34 @@ example : ∃ n, derive .claim { exXrd with claimNames := some { kind := "Databa
 /-- an update that only drops the claim names passes, one that renames the kind does not -/
 example : validateUpdate { exXrd with claimNames := none } exXrd = [] := by decide
 example : validateUpdate { exXrd with names := { exXrd.names with kind := "XDb" } } exXrd = ["spec.names.kind"] := by decide
+
+/-! the webhook under interference (`exXrd` updated to itself; both CRDs exist and are cached) -/
+
+def exWorld : World := World.initial ["xdatabases.example.org", "databases.example.org"]
+
+example : exWorld.quiet := ⟨rfl, fun _ => rfl⟩
+
+/-- nobody interferes: admitted after Get, Update(dry run) for each of the two CRDs -/
+example : (runE (hookSem fun _ => true) Env.none Plan.allOk 0 (hookUpdate exXrd exXrd) exWorld).2 = some .allowed := by decide
+
+/-- a third party modifies the composite CRD between the webhook's Get and its Update, the cache
+catches up: the Conflict is retried and the request admitted -/
+example : (runE (hookSem fun _ => true)
+    (scriptEnv [(1, .bump "xdatabases.example.org"), (2, .sync "xdatabases.example.org")])
+    Plan.allOk 0 (hookUpdate exXrd exXrd) exWorld).2 = some .allowed := by decide
+
+/-- the cache never catches up: five Conflicts, refused -/
+example : (runE (hookSem fun _ => true) (scriptEnv [(0, .bump "xdatabases.example.org")])
+    Plan.allOk 0 (hookUpdate exXrd exXrd) exWorld).2 = some (.rejected "xr" .conflict) := by decide
+
+/-- the claim CRD does not exist when read and is created by somebody else before the webhook's
+dry-run Create: AlreadyExists, refused (the other party's CRD was never validated against this XRD) -/
+example : (runE (hookSem fun _ => true) (scriptEnv [(3, .create "databases.example.org")])
+    Plan.allOk 0 (hookUpdate exXrd exXrd) (World.initial ["xdatabases.example.org"])).2
+      = some (.rejected "claim" .alreadyExists) := by decide
+
+/-- the server refuses the claim CRD: refused, whatever else happens -/
+example : (runE (hookSem fun c => c.scope != "Namespaced") Env.none Plan.allOk 0 (hookUpdate exXrd exXrd) exWorld).2
+      = some (.rejected "claim" .invalid) := by decide
 
 end Xp.C11
